@@ -213,10 +213,10 @@ def check_guard(ctx, rule, instance, fn, ev, alternatives, what, P=None, keep_ca
 # path automata (T1)
 # --------------------------------------------------------------------------
 
-def run_paths(ctx, fn, q0, step, edge=None, P=None, keep_calls=(), track_paths=()):
+def run_paths(ctx, fn, q0, step, edge=None, P=None, keep_calls=(), track_paths=(), keep_vars=()):
     """Runs automaton over all feasible paths of fn.  step(q, e, st, b, i)->q.
     Returns (graph, list of (final q, example path as block ids))."""
-    g = xgraph(P or ctx.P, fn, keep_calls=keep_calls, track_paths=track_paths)
+    g = xgraph(P or ctx.P, fn, keep_calls=keep_calls, track_paths=track_paths, keep_vars=keep_vars)
     parent, finals = g.run_automaton(q0, lambda q, b, i, e, st: step(q, e, st, b, i), edge)
     out = []
     for cur, q, bid in finals:
@@ -241,10 +241,10 @@ def path_lines(fn, g, parent, cur):
 
 
 def check_automaton(ctx, rule, instance, fn, q0, step, edge=None, what="", P=None, keep_calls=(),
-                    track_paths=(), bad_final=None):
+                    track_paths=(), bad_final=None, keep_vars=()):
     """Violation iff some feasible path reaches q == BAD (or bad_final(q) at
     a normal exit)."""
-    g, parent, finals = run_paths(ctx, fn, q0, step, edge, P, keep_calls, track_paths)
+    g, parent, finals = run_paths(ctx, fn, q0, step, edge, P, keep_calls, track_paths, keep_vars)
     worst = None
     n = 0
     for q, cur, bid in finals:
